@@ -12,7 +12,8 @@ The supervisor is a small deterministic state machine over a clock in millisecon
 `cmd.Wait()` returns when the group leader has exited *and* nobody holds the write end of the output pipes
 any more (the outputs are Go writers, so `os/exec` copies from pipes and waits for EOF).  Its result goes
 through an unbuffered channel that is received at most once: when the SIGTERM round already received it, the
-SIGKILL round waits out its full second (process.go:169-170 always runs the second `sendSignal`).
+SIGKILL round waits out its full second (process.go:169-170 always runs the second `sendSignal` — the fact
+`killAlways`; with `false` the model skips that round, which is the negative control of Props/C30).
 
 The processes are the environment: while alive they may exit, fork (the child inherits group membership,
 pipe ends and signal dispositions), close their pipe ends, start ignoring SIGTERM, or leave the group
@@ -25,9 +26,12 @@ Core Lean only.  Outside the model: real time and scheduling latency, process st
 -/
 namespace PlzVerif.Exec
 
+/-- The regenerated facts the supervisor is parameterised by. -/
 structure Timing where
   termWait : Nat      -- ms to wait after SIGTERM
   killWait : Nat      -- ms to wait after SIGKILL
+  killAlways : Bool   -- the SIGKILL round runs even when the SIGTERM round already received the Wait result
+  killsGroup : Bool   -- signals go to the negated pid (the whole group), not to the leader alone
 deriving Repr, DecidableEq
 
 structure Proc where
@@ -69,18 +73,22 @@ def St.chReady (s : St) : Bool := s.waitDone && !s.chTaken
 def sigTerm (p : Proc) : Proc := if p.inGroup && !p.ignoresTerm then { p with alive := false } else p
 def sigKill (p : Proc) : Proc := if p.inGroup then { p with alive := false } else p
 
-def St.signal (s : St) (f : Proc → Proc) : St := { s with leader := f s.leader, others := s.others.map f }
+/-- `syscall.Kill(±pid, sig)`: to the whole group, or (were the sign dropped) to the leader only. -/
+def St.signal (tm : Timing) (s : St) (f : Proc → Proc) : St :=
+  { s with leader := f s.leader, others := if tm.killsGroup then s.others.map f else s.others }
 
 /-- The supervisor's next step, if one is due now (`none`: it is blocked in a `select`). -/
 def sup (tm : Timing) (s : St) : Option St :=
   match s.phase with
   | .running =>
     if s.chReady then some { s with phase := .returned false s.now, chTaken := true }
-    else if s.now ≥ s.deadline then some { (s.signal sigTerm) with phase := .termSent s.now }
+    else if s.now ≥ s.deadline then some { (s.signal tm sigTerm) with phase := .termSent s.now }
     else none
   | .termSent t =>
-    if s.chReady then some { (s.signal sigKill) with phase := .killSent s.now, chTaken := true }
-    else if s.now ≥ t + tm.termWait then some { (s.signal sigKill) with phase := .killSent s.now }
+    if s.chReady then
+      if tm.killAlways then some { (s.signal tm sigKill) with phase := .killSent s.now, chTaken := true }
+      else some { s with phase := .returned true s.now, chTaken := true }    -- `if !success && !sendSignal(KILL…)`
+    else if s.now ≥ t + tm.termWait then some { (s.signal tm sigKill) with phase := .killSent s.now }
     else none
   | .killSent t =>
     if s.chReady then some { s with phase := .returned true s.now, chTaken := true }
